@@ -466,7 +466,8 @@ def main(argv):
     return rc
 
 def human(c):
-    return "%s(%s)" % (c["fn"], ", ".join(repr(a) for a in c["args"]))
+    s = "%s(%s)" % (c["fn"], ", ".join(repr(a) for a in c["args"]))
+    return s if len(s) < 400 else s[:400] + "…"
 
 def human_obs(o):
     s = repr(o)
